@@ -104,6 +104,9 @@ func (c *c19Ctx) genScenario(seed uint64, progs []*c19Prog) *Scenario {
 	if s.RawSrc == "" && s.Enc != "ascii" && r.Chance(1, 8) {
 		s.AsciiHead = pick(r, []int{300, 1024, 4096, 4200, 8192, 20000, 70000})
 	}
+	if s.Shape == "d-src-dst" {
+		s.Bulk, s.AsciiHead, s.Light = 0, 0, true
+	}
 	s.CRLF = r.Chance(1, 10) && s.RawSrc == ""
 	if r.Chance(1, 12) && s.RawSrc == "" {
 		s.NoFinalNL = true
@@ -161,6 +164,11 @@ func (c *c19Ctx) genScenario(seed uint64, progs []*c19Prog) *Scenario {
 				when = r.Range(1, 4)
 			}
 			s.Fault = &Fault{Kind: "strace", Target: st.target, Syscall: st.syscall, When: when, Errno: pick(r, errnos)}
+		}
+		if s.Fault.Kind == "strace" && s.Shape == "d-src-dst" {
+			// -d makes the parser print an enormous trace; under ptrace every one of those writes stops
+			// the process, so the run takes minutes. The flag does not change the I/O path: use a limit.
+			s.Fault = &Fault{Kind: "nofile", K: r.Range(3, 9)}
 		}
 		if s.Fault.Kind == "strace" && (s.DstKind == "dev_full" || s.DstKind == "dev_null" || s.DstKind == "emptyarg" || s.SrcKind == "emptyarg") {
 			// -P on a device node would also match nothing useful; keep the natural /dev/full fault alone
